@@ -132,6 +132,22 @@ def run(tier):
             vb = enc.enc_cat(build(va, 'ctor').clear_features(rng.choice(['dcl', 'X', 'nb', 'b', 'em'])))
         ev_eq(va, vb)
         ev_xor(va, vb)
+        # a near copy that differs in exactly one slash, at any depth (result spine or argument)
+        def flip(c, st):
+            if c['k'] != 'F':
+                return c
+            if st[0] == 0:
+                st[0] = -1
+                return gen.fun(c['l'], rng.choice([x for x in '/\\|' if x != c['s']]), c['r'])
+            st[0] -= 1
+            l = flip(c['l'], st)
+            return gen.fun(l, c['s'], flip(c['r'], st) if st[0] >= 0 else c['r'])
+        def nslash(c):
+            return 0 if c['k'] != 'F' else 1 + nslash(c['l']) + nslash(c['r'])
+        if nslash(va) > 0:
+            vs = flip(va, [rng.randrange(nslash(va))])
+            ev_eq(va, vs)
+            ev_xor(va, vs)
         if system == 'ja':
             # a twin carrying the same feature values under another key name in one atom
             def rename(c, st):
